@@ -133,6 +133,8 @@ class H5Group:
         automatically determined by the data
         :param compression: whether to compress the data (default: False)
         """
+        # check first: text with a NUL would be refused after the dataset was made or resized
+        util.check_no_nul(data)
         shape = np.shape(data)
         if self.has_data(name):
             dset = self.get_dataset(name)
@@ -260,6 +262,8 @@ class H5Group:
         self._group.visititems(delete_by_id)
 
     def set_attr(self, name, value):
+        # check first: h5py removes the old attribute before it fails on text with a NUL
+        util.check_no_nul(value)
         self._create_h5obj()
         if value is None:
             if name in self.group.attrs:
@@ -296,6 +300,8 @@ class H5Group:
              keep_id=True):
         # decide first: a flag without a truth value must not be found out after the copy is made
         keep_id = bool(keep_id)
+        # likewise a name HDF5 cannot store
+        util.check_no_nul(name)
         grp = self.group
         dest.open_group(cls, create=True)
         dest_grp = dest.group[cls]
